@@ -578,7 +578,8 @@ def strop_to_coq(c, r):
     return f"({K}, {cstr(c['s'])}, {copt(dec)})"
 
 REQ = ["Base.Chars", "Model.Backend", "Spec.Target", "Spec.Lex", "Spec.Items", "Model.Leaf", "Spec.Query", "Run.C01run"]
-from props.c01_leaf import gen_leaf, leaf_to_coq, stratum_leaf, mutate_leaf, known_leaf, py_oracle_leaf
+from props.c01_leaf import (gen_leaf, leaf_to_coq, stratum_leaf, mutate_leaf, known_leaf, py_oracle_leaf, gen_inlist,
+                             inlist_to_coq, stratum_inlist)
 REQ_LEAF = ["Base.Chars", "Base.Outcome", "Model.SString", "Model.StrOp", "Model.FieldName", "Model.Leaf", "Spec.Atom", "Run.C01leaf"]
 PROPERTY = Property(
     pid="C01", props_file="Props/C01.v",
@@ -586,6 +587,8 @@ PROPERTY = Property(
                   mutate=mutate, py_oracle=py_oracle, stratum=stratum, shard=120),
             Suite("strop", gen_strop, "run_strop", REQ + ["Model.StrOp", "Spec.Items"], "judge_strop", strop_to_coq),
             Suite("leaf", gen_leaf, "run_leaf", REQ_LEAF, "judge_leaf", leaf_to_coq, stratum=stratum_leaf, mutate=mutate_leaf, known=known_leaf, py_oracle=py_oracle_leaf,
+                  shard=150),
+            Suite("inlist", gen_inlist, "run_inlist", REQ_LEAF + ["Spec.Query"], "judge_inlist", inlist_to_coq, stratum=stratum_inlist,
                   shard=150)],
     rule="random rules (1-4 detections: maps, lists of maps, keyword lists; strings with wildcards/escapes, numbers, bools, null; "
          "modifiers contains/startswith/endswith/all/cased/re/cidr/exists/windash/base64offset/gt/lte/fieldref/neq/minute; conditions "
